@@ -203,7 +203,16 @@ def run(v, tier, seed):
             continue
         fails = [l for l in out.splitlines() if "static assertion failed" in l or "static_assert failed" in l]
         if not fails:
-            raise vlib.InfraError("c15 constexpr TU failed for another reason:\n" + out[-3000:])
+            # no assertion failed, yet the TU is ill-formed: an error located in sbepp.hpp / a generated header
+            # means that the constant evaluation of a call the spec gives a value for is not a constant
+            # expression at all (e.g. undefined behaviour inside a choice accessor)
+            errs = [l for l in out.splitlines() if "error:" in l and (vlib.SBEPP_INC in l or inc in l)]
+            if not errs:
+                raise vlib.InfraError("c15 constexpr TU failed for another reason:\n" + out[-3000:])
+            ctx = [l for l in out.splitlines() if "expansion of" in l or "in call to" in l][:3]
+            v.violation("constexpr/ill-formed/%s" % cfg[0], "[%s %s] constant evaluation of a choice accessor is ill-formed:\n%s\n%s" % (
+                cfg[0], cfg[1], "\n".join(errs[:3]), "\n".join(ctx)), {"source": "static_assert", "errors": errs[:5]})
+            continue
         sigs = set()
         for l in fails:
             # message text: cx <op> w=<w> i=<i> val=...
